@@ -296,6 +296,7 @@ class Scheduler:
         self.errors = [None] * n
         threads = [_real_threading.Thread(target=self._thread_main, args=(i, fns[i]), daemon=True, name=f"sim-{i}")
                    for i in range(n)]
+        self._threads = threads
         _ACTIVE_SCHED[0] = self
         for t in threads:
             t.start()
@@ -305,7 +306,7 @@ class Scheduler:
         self.sems[first].release()
         if not self.main_sem.acquire(timeout=self.wait_timeout * 2.5):
             raise HarnessError("scheduler: run did not finish (deadlock or a thread stuck outside the baton)")
-        for t in threads:
+        for t in list(self._threads):
             t.join(timeout=10)
             if t.is_alive():
                 raise HarnessError("scheduler: thread did not exit")
@@ -314,6 +315,130 @@ class Scheduler:
             if isinstance(e, HarnessError):
                 raise e
         return self.errors
+
+
+    # -- dynamic threads (pool tasks) and cooperative waiting -------------------
+    def spawn(self, fn, ident=None):
+        """Called by the running simulated thread: add a new simulated thread
+        (runnable at once). Returns its index."""
+        i = len(self.state)
+        self.sems.append(_real_threading.Semaphore(0))
+        self.state.append("runnable")
+        self.idents.append(ident if ident is not None else 5000 + i)
+        self.start_after.append(None)
+        self.errors.append(None)
+        t = _real_threading.Thread(target=self._thread_main, args=(i, fn), daemon=True, name=f"sim-{i}")
+        self._threads.append(t)
+        t.start()
+        return i
+
+    def yield_now(self, i):
+        """Thread i has nothing to do for the moment (polling / sleeping):
+        let somebody else run if anybody can."""
+        others = [t for t in self._runnable() if t != i]
+        if not others:
+            return False
+        nxt = self.chooser.choose(None, others, self.points)
+        self.trace.append(nxt)
+        self.switches += 1
+        self.sig.append((i, nxt, "wait"))
+        self.sems[nxt].release()
+        self._wait(i)
+        return True
+
+    def wait_until(self, pred):
+        i = self.index_of_current()
+        guard = 0
+        while not pred():
+            guard += 1
+            if guard > 1_000_000 or not self.yield_now(i):
+                raise SimDeadlock("waiting for something nobody can provide")
+
+
+class PreemptiveFuture:
+    def __init__(self, pool, idx):
+        self.pool, self.idx = pool, idx
+        self.state = "queued"
+        self._res = None
+        self._exc = None
+
+    def done(self):
+        return self.state in ("done", "cancelled")
+
+    def cancelled(self):
+        return self.state == "cancelled"
+
+    def cancel(self):
+        if self.state == "queued":
+            self.state = "cancelled"
+            self.pool._queue = [(f, t) for (f, t) in self.pool._queue if f is not self]
+            self.pool.stats["cancelled"] += 1
+            return True
+        return self.state == "cancelled"
+
+    def result(self, timeout=None):
+        from concurrent.futures import CancelledError
+
+        if self.state == "cancelled":
+            raise CancelledError()
+        if self.state != "done":
+            self.pool.sched.wait_until(lambda: self.state in ("done", "cancelled"))
+        if self.state == "cancelled":
+            raise CancelledError()
+        if self._exc is not None:
+            raise self._exc
+        return self._res
+
+
+class PreemptivePool:
+    """A *thread* pool whose tasks are simulated threads: they share objects
+    with the submitter and with each other and interleave at the scheduler's
+    pre-emption points (unlike SimPool, where each task runs atomically)."""
+
+    mode = "thread-preemptive"
+
+    def __init__(self, sched, workers):
+        self.sched = sched
+        self._max_workers = int(workers)
+        self._active = 0
+        self._queue = []
+        self._n = 0
+        self.completion_order = []
+        self.stats = {"submitted": 0, "completed": 0, "cancelled": 0, "out_of_order": 0, "max_inflight": 0, "batched": 0,
+                      "cancel_refused": 0}
+
+    def submit(self, fn, *args, **kwargs):
+        fut = PreemptiveFuture(self, self._n)
+        self._n += 1
+        self.stats["submitted"] += 1
+
+        def task():
+            fut.state = "running"
+            try:
+                fut._res = fn(*args, **kwargs)
+            except Exception as e:
+                fut._exc = e
+            fut.state = "done"
+            if self.completion_order and fut.idx < max(self.completion_order):
+                self.stats["out_of_order"] += 1
+            self.completion_order.append(fut.idx)
+            self.stats["completed"] += 1
+            self._active -= 1
+            self._start_next()
+
+        self._queue.append((fut, task))
+        self._start_next()
+        return fut
+
+    def _start_next(self):
+        while self._queue and self._active < self._max_workers:
+            fut, task = self._queue.pop(0)
+            self._active += 1
+            self.stats["max_inflight"] = max(self.stats["max_inflight"], self._active)
+            self.sched.spawn(task)
+
+    def shutdown(self, wait=True):
+        pass
 
 
 def segments(trace):
